@@ -52,7 +52,7 @@ def replay(obj):
             return None
         shellfuzz.prepare(shell, random.Random(case.get("prep_seed", 0)), case["state"])
         for line in case["cmds"]:
-            out, errs, exc, cont = dbg.feed(shell, line)
+            out, errs, exc, cont = dbg.feed(shell, line, limit=10)
             if exc:
                 return "{!r} raised {}".format(line, exc)
             if cont is False:
